@@ -375,6 +375,68 @@ def check_growby(ctx, prog):
     return n
 
 
+def check_copy_applied(ctx, wprog):
+    """the copies merge_requests records for overlapping get requests are carried out by its caller after the read:
+    the list handed to merge_requests is the one a memmove/memcpy loop walks, that loop follows ncmpio_read_write, and the
+    list is handed over for reads (a NULL argument is allowed for writes only)."""
+    from rules import r8merge
+    import cfg as _cfg
+    mfn = ctx.need_fn(wprog, "merge_requests")
+    lp, _ = r8merge.find_merge_loop(mfn)
+    copy = r8merge.find_copy_list(mfn, lp, {"off": "*segs[%d].off"}) if lp is not None else None
+    if copy is None:
+        return      # no copy list on this tree: R8.readmerge has already decided whether one is needed
+    arr = copy[0].replace("(", "").replace(")", "").lstrip("*")
+    pidx = [k for k, p in enumerate(mfn.params) if p["n"] == arr]
+    ctx.require(len(pidx) == 1, "R8.readmerge: copy list %s is not a parameter of merge_requests" % arr)
+    n = 0
+    for fn in wprog.all_functions():
+        for b, i, c in patterns.call_sites(fn, lambda nm: nm == "merge_requests"):
+            n += 1
+            inst = "%s->merge_requests:copies" % fn.name
+            a = strip(c["args"][pidx[0]])
+            # accepted forms: &list, or (rw_flag == NC_REQ_RD) ? &list : NULL
+            txt = canon(a)
+            cand = None
+            for x in walk(c["args"][pidx[0]], into_pre=True):
+                if x.get("k") == "un" and x.get("op") == "&" and strip(x["e"]).get("k") == "ref":
+                    cand = strip(x["e"])
+            if cand is None:
+                ctx.fail("R8.readmerge", fn.name, "copies", "merge_requests is called with `%s` for its copy list: overlapped regions "
+                         "of get requests are never delivered" % txt[:60], fn=fn, line=c.get("l", 0), inst=inst)
+                continue
+            if a.get("k") == "cond" and not (macro_of(strip_pre(a["c"]).get("b")) == "NC_REQ_RD" and strip_pre(a["c"]).get("op") == "=="
+                                             and strip(strip_pre(a["a"])).get("k") == "un"):
+                ctx.fail("R8.readmerge", fn.name, "copies", "the copy list is handed over under `%s`, not for reads" % canon(a.get("c", {}))[:60],
+                         fn=fn, line=c.get("l", 0), inst=inst)
+                continue
+            key = lvalue_key(cand)
+            rw = [(b2, i2) for b2, i2, c2 in patterns.call_sites(fn, lambda nm: nm == "ncmpio_read_write")]
+            applied = False
+            for b2, i2, c2 in patterns.call_sites(fn, lambda nm: nm in ("memmove", "memcpy")):
+                ar = c2.get("args", [])
+                if len(ar) < 3:
+                    continue
+                flds = []
+                for x in ar[:3]:
+                    m = strip(x)
+                    while isinstance(m, dict) and m.get("k") == "cast":
+                        m = strip(m.get("e"))
+                    if isinstance(m, dict) and m.get("k") == "mem":
+                        bb = strip(m["b"])
+                        if bb.get("k") == "idx" and lvalue_key(bb["b"]) == key:
+                            flds.append(m["f"])
+                if flds == [copy[3], copy[2], copy[4]] and any(_cfg.pos_dominates(fn, (rb.id, ri), (b2.id, i2)) for rb, ri in rw):
+                    applied = True
+            if applied:
+                ctx.ok("R8.readmerge", inst, "list %s: copied (dst, src, len) in a loop that follows ncmpio_read_write" % cand.get("n"))
+            else:
+                ctx.fail("R8.readmerge", fn.name, "copies", "the copies recorded in `%s` are not carried out after ncmpio_read_write "
+                         "(no memmove/memcpy of its %s/%s/%s entries follows the read)" % (cand.get("n"), copy[3], copy[2], copy[4]),
+                         fn=fn, line=c.get("l", 0), inst=inst)
+    ctx.require(n >= 1, "R8.readmerge: no caller of merge_requests")
+
+
 def run(ctx):
     ctx.rule("R5.queue", "loops over the request queues are bounded by the queue's own length field")
     ctx.rule("R5.shift", "no read through a pre-shift element pointer inside a queue-compaction loop")
@@ -404,5 +466,12 @@ def run(ctx):
     ctx.rule("R8.interleave", "wait_getput hands the requests on sorted, with the interleaved flag exact (bounded)")
     ni = r8interleave.check(ctx, ctx.need_fn(wprog, "wait_getput"), "R8.interleave")
     ctx.require(ni >= 1000, "R8.interleave: only %d request lists evaluated" % ni)
+    from rules import r8merge
+    ctx.rule("R8.readmerge", "merge_requests, read form: after the read through the merged segments and the copies the function "
+             "records, every get request's buffer holds all of its file bytes, also where requests overlap (bounded)")
+    nm = r8merge.check(ctx, ctx.need_fn(wprog, "merge_requests"), "R8.readmerge",
+                       {"off": "*segs[%d].off", "len": "*segs[%d].len", "addr": "*segs[%d].buf_addr", "n": "*nsegs"}, reads=True)
+    ctx.require(nm >= 1000, "R8.readmerge: only %d segment lists evaluated" % nm)
+    check_copy_applied(ctx, wprog)
     ctx.rule("R5.growby", "sorted queue insertion: growth, element shift and nonlead_off adjustment use one amount")
     check_growby(ctx, prog)
